@@ -572,7 +572,8 @@ class Plucker(SMUserList):
         :seealso: Plucker.or, Plucker.intersects
         """
         l1 = self
-        return np.linalg.norm(np.cross(l1.w, l2.w) ) < tol
+        # the threshold scales with the lengths of the direction vectors, so that rescaling a direction does not change the answer
+        return np.linalg.norm(np.cross(l1.w, l2.w) ) < tol * max(1.0, np.linalg.norm(l1.w) * np.linalg.norm(l2.w))
 
     
     def __or__(self, l2):  # pylint: disable=no-self-argument
